@@ -1305,6 +1305,49 @@ theorem engines_agree_byWithout (parse : Bytes → Option Rat) (o : Oracles) (E 
   engines_agree_unwrapAgg parse o E hE h0 c hn d hd ms hm fs label lbl hlbl hent hnum fn fn' hfn (some gg)
     (fun g' hg' => by cases hg'; exact hgk) dur k n hdur hfrom hto rc hrf hrt hok hord bs hbs l t v
 
+/-- **engines_agree_vectorAgg — sum / min / max / avg / count, with `by`, `without` or no grouping clause** (the vector
+    aggregations both engines implement; `stddev`/`stdvar` and `topk`/`bottomk` exist only in ClickHouse and are refused in
+    process: `gen_facts_agg`). The stage on the same matrix: `pts` is the matrix ClickHouse has in front of `AggOpPlanner`
+    (C08: the points of the range stage after its comparison — `rangePoints`, which `engines_agree_rangeAgg` /
+    `engines_agree_unwrapAgg` relate to the in-process range aggregation), `rows` the same samples as entries of the
+    in-process engine, in any order. In process: the by/without planner `planAggregators` puts in front of the aggregation
+    — `by ()` when no clause is written (`Read.planVecGrouping`, after the `fix:`) — and `AggOpPlanner`'s reading
+    (`aggregate` by label set with `vecValue`, which `stage_meets_logql_vectorAgg` / `metricPlan_meets_logql` prove the bucket
+    machine computes); ClickHouse: `LogQL.aggStage`, which C08 `plan_metric_correct` / `vector_agg` prove the SQL of
+    `ByWithoutPlanner` + `AggOpPlanner` computes. Same series (kept label set), same timestamps, same values. Hypotheses:
+    exact rationals; the points lie on the bucket grid; label documents without a repeated name; cityHash64 separates the
+    kept label sets (`hgk`). Not a whole-plan statement: the composition with the inner range aggregation (a permutation
+    between the two inner matrices) is checked by the `engines-metric` stream only. -/
+theorem engines_agree_vectorAgg (parse : Bytes → Option Rat) (o : Oracles) (c : LogQL.Ctx) (d : LokiDb) (q : LogQuery) (E : Env Rat)
+    (a : VecAgg) (fn : VecFn) (hfn : toVec fn = a.fn) (pts : List Pt) (grid : Grid)
+    (hgridpts : ∀ p ∈ pts, ∃ i, i < grid.n ∧ grid.bucket p.ts = some i ∧ p.ts = grid.start + (i : Int) * grid.dur)
+    (hinj : ∀ i j : Nat, grid.start + (i : Int) * grid.dur = grid.start + (j : Int) * grid.dur → i = j)
+    (hnd : ∀ p ∈ pts, ∃ m, ptLabels o c d q p = .map m ∧ NodupKeys m)
+    (hgk : ∀ p ∈ pts, ∀ p' ∈ pts,
+      ((canonLabels (asMap (ptLabels o c d q p))).filter (fun kv => (groupingKeys (aggGrouping a)).contains kv.1 == (aggGrouping a).isBy) =
+       (canonLabels (asMap (ptLabels o c d q p'))).filter (fun kv => (groupingKeys (aggGrouping a)).contains kv.1 == (aggGrouping a).isBy)) ↔
+      (regroup o (aggGrouping a) (ptLabels o c d q p)).1 = (regroup o (aggGrouping a) (ptLabels o c d q p')).1)
+    (rows : List (Entry Rat)) (hrows : rows.Perm (pts.map (scanPt o c d q)))
+    (l : Read.Labels) (t : Int) (v : Rat) :
+    (∃ e ∈ (aggregate (fun e : Entry Rat => e.labels) grid (vecValue (ratOps parse) fn)
+        (optByWithout E (planVecGrouping ((chosenGrouping a.byPrefix a.bySuffix).map toBW)) rows)).flatten,
+        e.labels = l ∧ e.ts = t ∧ e.val = v) ↔
+    (∃ pt ∈ aggStage o c d q a pts, canonLabels (asMap pt.labels) = l ∧ pt.ts = t ∧ pt.value = v) :=
+  vec_agree parse o c d q E a fn hfn pts grid hgridpts hinj hnd hgk rows hrows l t v
+
+/-- non-vacuity: `sum(…)` without clause over two streams' points at one timestamp — one series `{}` with the sum, on both
+    sides (the in-process side computed with the planned `by ()`) -/
+example :
+    let pts : List Pt := [⟨.int 1, .map [([97], [98])], 0, 2⟩, ⟨.int 2, .map [([97], [99])], 0, 3⟩]
+    (aggStage cxO ⟨0, 1, 0, false, 1, false, "g", "s", "t", "t"⟩ ⟨[], [], []⟩ ⟨[], []⟩ ⟨.sum, none, ⟨.lra .rate, ⟨[], []⟩, 1, none, none, none⟩, none, none⟩ pts).map
+        (fun p => (p.labels, p.ts, p.value)) = [(.map [], 0, 5)] ∧
+    ((aggregate (fun e : Entry Rat => e.labels) ⟨0, 1, 1⟩ (vecValue (ratOps (fun _ => none)) .sum)
+        (optByWithout ⟨cxO, ratOps (fun _ => none), fun _ => .bad, fun _ => false, fun _ => [], fun _ _ => none, fun _ => 0⟩
+          (planVecGrouping none)
+          (pts.map (scanPt cxO ⟨0, 1, 0, false, 1, false, "g", "s", "t", "t"⟩ ⟨[], [], []⟩ ⟨[], []⟩)))).flatten.map
+        (fun e => (e.labels, e.ts, e.val))) = [([], 0, 5)] := by
+  decide +kernel
+
 /-! ### the recorded finding: a step above the range -/
 /-- `clickhouse_planner.StepFixPlanner` on the matrix of the range / vector aggregation (rows ordered by series, then time):
     when the step is greater than the range, one row per (series, step bucket `intDiv(ts, step) * step`) with the value of
